@@ -342,6 +342,6 @@ Lemma err_ok_of_discipline p pc s : err_discipline p pc s -> err_ok p pc s = tru
 Proof.
   intro D. unfold err_ok. destruct (exec p pc s) as [succs|] eqn:E; [|reflexivity].
   apply forallb_forall. intros c IC. apply existsb_exists. exists c. split.
-  - exact (D succs eq_refl c IC).
+  - exact (D succs E c IC).
   - now rewrite N.eqb_refl, astate_eqb_refl.
 Qed.
